@@ -61,6 +61,7 @@ ReadStep(a, v) ==
             /\ IF c \in known THEN (v & WMask(a)) = mem[c] /\ UNCHANGED <<mem, known>>
                ELSE Put(c, v & WMask(a))
             /\ (v & (255 - WMask(a) - OMask(a) - FreeMask(a))) = 0
+            /\ (a = 65345 /\ ~lcd => v % 4 = 0)                 \* STAT: the mode bits are read-only and read 0 while the LCD is off
             /\ UNCHANGED <<lcd, dma>>
      [] cls = "ro"       ->
             \* LY and DIV never take the written value: after a write of w (no time passing) the register
